@@ -406,7 +406,7 @@ def run_case(ctx, case):
             t = seg['p_type']
             if isinstance(t, str):
                 by_type.setdefault(t, []).append(j)
-        for t in sorted(by_type)[:3] + ['PT_NO_SUCH_TYPE']:
+        for t in sorted(by_type)[:3] + sorted(by_type)[-5:] + ['PT_NO_SUCH_TYPE']:
             ok, lst = guard('iter_segments(type)', lambda: list(ef.iter_segments(type=t)), allow_elferror=not valid)
             if ok and [dict(x.header) for x in lst] != [dict(segseen[j].header) for j in by_type.get(t, [])]:
                 ctx.fail('iter_segments|type-filter', 'type %s: model indices %r, filter yielded %d segments' % (t, by_type.get(t, []), len(lst)), case)
